@@ -60,6 +60,7 @@ pub struct C07Searches;
 fn search_position() -> BoxedStrategy<String> {
     prop_oneof![
         5 => gen::terminal_biased(),
+        3 => gen::tactical_crowd(),
         1 => gen::mating_material(),
         1 => (0usize..gen::FORCED_SEEDS.len(), prop::collection::vec(any::<u16>(), 0..4)).prop_map(|(i, sels)| {
             gen::walk_end(&gen::Walk { fen: gen::FORCED_SEEDS[i].to_string(), sels }).fen()
